@@ -1,4 +1,4 @@
-import GoCrypt.Props.C11
+import GoCrypt.Props.C11Core
 import GoCrypt.Props.C10
 import GoCrypt.Spec.Respell
 import GoCrypt.Props.Accept
